@@ -45,17 +45,19 @@ C14CoolOff(nd)    == nd.a = "Ctl" /\ CoolOffReq(RowOfN(nd), CtlOfN(nd)) => Refus
 C14Price(nd)      == nd.a = "Ctl" /\ PriceReq(RowOfN(nd), nd.args.prod, CtlOfN(nd)) => Refused(nd)
 C14FailsClosed(nd) == nd.a = "Ctl" /\ ~nd.res.ok => Same(nd)
 HookIdle(nd)      == nd.st.seizedPost = nd.st.seizedPre /\ nd.st.aucPost = nd.st.aucPre
-C14HookBreaker(nd) == nd.a = "Hook" /\ HookMustIdle(nd.args.hook, Ctl(nd.args.breaker, nd.args.esm, {})) => HookIdle(nd)
+HookCtl(nd)       == Ctl(nd.args.breaker, nd.args.esm, Range(nd.args.off))
+C14HookBreaker(nd) == nd.a = "Hook" /\ HookBreakerReq(nd.args.hook, HookCtl(nd)) => HookIdle(nd)
+C14HookPrice(nd)  == nd.a = "Hook" /\ HookPriceReq(nd.args.hook, HookCtl(nd)) => HookIdle(nd)
 C14NoPanic(nd)    == nd.a \in {"Ctl", "Hook"} /\ nd.args.breaker => ~nd.res.panic
 
 ConfCtl(nd)  == nd.a = "Ctl" /\ RefOk(nd) => nd.res.ok = ImplOk(RowOfN(nd), nd.args.prod, CtlOfN(nd))
 HookActed(nd) == ~HookIdle(nd)
 ConfHook(nd) == nd.a = "Hook" /\ nd.args.ref > 0 /\ HookActed(Log[nd.args.ref]) =>
-                  HookActed(nd) = ~ImplHookIdle(nd.args.hook, Ctl(nd.args.breaker, nd.args.esm, {}))
+                  HookActed(nd) = ~ImplHookIdle(nd.args.hook, HookCtl(nd))
 
 Formulas == <<"C12_OwnerOnly", "C12_VictimUntouched", "C12_RejectedChangesNothing", "C12_Privileged", "C12_PrivilegedRole",
               "C12_PrivilegedOtherNetwork", "C12_KillSwitch",
-              "C14_Breaker", "C14_Shutdown", "C14_CoolOff", "C14_PriceMissing", "C14_FailsClosed", "C14_HookBreaker",
+              "C14_Breaker", "C14_Shutdown", "C14_CoolOff", "C14_PriceMissing", "C14_FailsClosed", "C14_HookBreaker", "C14_HookPriceMissing",
               "Conf_Owner", "Conf_Priv", "Conf_Kill", "Conf_Catalogue", "Conf_Ctl", "Conf_Hook">>
 Holds(f, i) ==
   LET nd == Nd(i) IN
@@ -72,6 +74,7 @@ Holds(f, i) ==
     [] f = "C14_PriceMissing" -> C14Price(nd)
     [] f = "C14_FailsClosed" -> C14FailsClosed(nd)
     [] f = "C14_HookBreaker" -> C14HookBreaker(nd)
+    [] f = "C14_HookPriceMissing" -> C14HookPrice(nd)
     [] f = "Conf_Owner" -> ConfOwner(nd)
     [] f = "Conf_Priv" -> ConfPriv(nd)
     [] f = "Conf_Kill" -> ConfKill(nd)
@@ -101,6 +104,7 @@ CtlRefOk(nd)     == nd.a = "Ctl" /\ nd.args.ref = nd.id /\ nd.res.ok
 CtlRef(nd)       == nd.a = "Ctl" /\ nd.args.ref = nd.id
 CtlFree(nd)      == nd.a = "Ctl" /\ ~MustReject(RowOfN(nd), nd.args.prod, CtlOfN(nd)) /\ nd.res.ok
 HookBreaker(nd)  == nd.a = "Hook" /\ nd.args.breaker /\ nd.args.ref > 0 /\ HookActed(Log[nd.args.ref])
+HookPrice(nd)    == nd.a = "Hook" /\ HookPriceReq(nd.args.hook, HookCtl(nd)) /\ ~nd.args.breaker /\ nd.args.ref > 0 /\ HookActed(Log[nd.args.ref])
 HookRefActs(nd)  == nd.a = "Hook" /\ nd.args.ref = nd.id /\ HookActed(nd)
 HookRef(nd)      == nd.a = "Hook" /\ nd.args.ref = nd.id
 IsState(nd)      == nd.a = "State"
@@ -121,7 +125,7 @@ Stats == PrintT(<<"STATS", [nodes |-> NLog, states |-> Cnt(IsState), own |-> Cnt
            killRejected |-> Cnt(KillRej), killAccepted |-> Cnt(KillAcc),
            ctlBreaker |-> Cnt(CtlBreaker), ctlShutdown |-> Cnt(CtlShutdown), ctlCoolOff |-> Cnt(CtlCoolOff),
            ctlCoolWitness |-> Cnt(CtlCoolWitness), ctlPrice |-> Cnt(CtlPrice), ctlRef |-> Cnt(CtlRef), ctlRefOk |-> Cnt(CtlRefOk),
-           ctlFreeOk |-> Cnt(CtlFree), hookBreaker |-> Cnt(HookBreaker), hookRef |-> Cnt(HookRef), hookRefActs |-> Cnt(HookRefActs),
+           ctlFreeOk |-> Cnt(CtlFree), hookBreaker |-> Cnt(HookBreaker), hookPrice |-> Cnt(HookPrice), hookRef |-> Cnt(HookRef), hookRefActs |-> Cnt(HookRefActs),
            noteOkNoEffect |-> Cnt(OkNoEffect), noteRejectedAfterWrites |-> Cnt(RejectedDirty),
            ownRows |-> Cardinality(OwnerRows), ownRowsWitnessed |-> Cardinality(OwnWitnessed),
            variants |-> Cardinality(Variants), variantsWitnessed |-> Cardinality(PrivWitnessed),
